@@ -3,7 +3,13 @@
 package c15
 
 import (
+	"context"
+
+	"git.defalsify.org/vise.git/cache"
+	"git.defalsify.org/vise.git/render"
+	"git.defalsify.org/vise.git/state"
 	"git.defalsify.org/vise.git/vm"
+	"vharness/app"
 	"vharness/vrt"
 )
 
@@ -138,7 +144,114 @@ func ParseLoad(v *vrt.Ctx) {
 	}
 }
 
+// refInt32 decodes a length-prefixed integer (reference).
+func refInt32(b []byte) (uint32, []byte, bool) {
+	if len(b) == 0 {
+		return 0, nil, false
+	}
+	l := int(b[0])
+	if l > 4 || len(b) < 1+l {
+		return 0, nil, false
+	}
+	var n uint32
+	for i := 0; i < l; i++ {
+		n = n<<8 | uint32(b[1+i])
+	}
+	return n, b[1+l:], true
+}
+
+// flagOutOfRange: does the program contain a complete CATCH or CROAK whose
+// flag index is outside the configured flag range? Executing such an
+// instruction panics by documented design (state.GetFlag), which is not a
+// decoding question.
+func flagOutOfRange(b []byte, bits uint32) bool {
+	for len(b) >= 2 {
+		op := uint16(b[0])<<8 | uint16(b[1])
+		b = b[2:]
+		ok := true
+		switch op {
+		case vm.NOOP, vm.HALT, vm.MSINK:
+		case vm.CATCH:
+			if b, ok = refSym(b); ok {
+				var n uint32
+				if n, b, ok = refInt32(b); ok {
+					if len(b) == 0 {
+						return false
+					}
+					if n >= bits {
+						return true
+					}
+					b = b[1:]
+				}
+			}
+		case vm.CROAK:
+			var n uint32
+			if n, b, ok = refInt32(b); ok {
+				if len(b) == 0 {
+					return false
+				}
+				if n >= bits {
+					return true
+				}
+				b = b[1:]
+			}
+		case vm.LOAD:
+			if b, ok = refSym(b); ok {
+				b, ok = refInt(b)
+			}
+		case vm.RELOAD, vm.MAP, vm.MOVE:
+			b, ok = refSym(b)
+		case vm.INCMP, vm.MOUT, vm.MNEXT, vm.MPREV:
+			if b, ok = refSym(b); ok {
+				b, ok = refSym(b)
+			}
+		default:
+			return false
+		}
+		if !ok {
+			return false
+		}
+	}
+	return false
+}
+
+// Run: arbitrary bytes as bytecode through Vm.Run on a minimal VM (a state at
+// the entry node, an application with a few nodes and one function): no
+// panic; the run either executes complete instructions or returns an error.
+func Run(v *vrt.Ctx) {
+	n := v.Param("L")
+	code := v.Bytes("code", n)
+	rs := app.NewRes()
+	rs.Funcs["f"] = app.Static("x")
+	rs.Node("ab", "ab", app.Code().Halt().Bytes())
+	rs.Node("_catch", "catch", app.Code().Halt().Bytes())
+	st := state.NewState(8)
+	ca := cache.NewCache()
+	st.Down("root")
+	ca.Push()
+	st.SetInput([]byte("1"))
+	vmi := vm.NewVm(st, rs, ca, render.NewSizer(0))
+	var rest []byte
+	var err error
+	if v.Try(func() { rest, err = vmi.Run(context.Background(), code) }) {
+		// the only admissible panic: a flag index outside the configured range
+		v.Assert(flagOutOfRange(code, 16), "C15/run-panics-only-on-out-of-range-flag")
+		v.Cover("C15/run-flag-out-of-range")
+		return
+	}
+	v.Observe("err", err)
+	if err == nil {
+		v.Cover("C15/run-ok")
+		// what is left over is pending code after a HALT: it must itself be
+		// empty or begin at an instruction boundary of the input
+		v.Assert(len(rest) <= len(code), "C15/run-returns-a-suffix")
+	} else {
+		v.Cover("C15/run-error")
+	}
+}
+
 var Harnesses = map[string]func(*vrt.Ctx){
+	"Run":       Run,
 	"ParseLoad": ParseLoad,
 	"Bytes":     Bytes,
 	"LongSym":   LongSym,
